@@ -49,7 +49,11 @@ def check_case(ctx, case):
     probs = shape.check(res, mode, gbt, pk_in_columns=case["gen"] != "corpus")
     if probs:
         kind = probs[0].split(": ", 1)[-1].split(" ")[0:3]
-        ctx.violation("shape:" + "_".join(kind)[:40], case, {"problems": probs[:5]})
+        kf = None
+        dk = case.get("dropped_key_column")
+        if dk and all(("primary_key names %r which is not a column of the table" % dk) in q for q in probs):
+            kf = "C12:primary-key-keeps-dropped-column"      # listed defect; any other shape problem on these scripts is an ordinary violation
+        ctx.violation("shape:" + "_".join(kind)[:40], case, {"problems": probs[:5]}, kf=kf)
     if case.get("json_dump"):
         ctx.evaluated()
         j = parse(ddl, ctor, json_dump=True, **kw)
@@ -144,10 +148,16 @@ def run_shard(ctx):
                     if k % 3 == 1:
                         # ALTERs that name a column the table does not have: whatever they do, the key still lists columns of the table
                         extra = [["ALTER TABLE t MODIFY COLUMN zz_unknown bigint;"], ["ALTER TABLE t DROP COLUMN zz_unknown;"], ["ALTER TABLE t ALTER COLUMN zz_unknown varchar(5);"],
-                                 ["ALTER TABLE t RENAME COLUMN zz_unknown TO zz_other;"], ["ALTER TABLE t ADD COLUMN c9 int;", "ALTER TABLE t MODIFY COLUMN c9 bigint;"]][(k // 3) % 5]
+                                 ["ALTER TABLE t RENAME COLUMN zz_unknown TO zz_other;"], ["ALTER TABLE t ADD COLUMN c9 int;", "ALTER TABLE t MODIFY COLUMN c9 bigint;"],
+                                 # ... and ALTERs of a KEY column: renamed, the key follows it; dropped (listed defect: the key keeps the name)
+                                 ["ALTER TABLE t RENAME COLUMN %s TO z0;" % cl["cols"][0]], ["ALTER TABLE t RENAME COLUMN %s TO \"Z 1\";" % cl["cols"][-1], "ALTER TABLE t RENAME COLUMN c2 TO zz2;"],
+                                 ["ALTER TABLE t DROP COLUMN %s;" % cl["cols"][-1]]][(k // 3) % 8]
                     ddl = finish_script([render(S.table_tokens(t), layout, rng)] + extra + ["DROP TABLE old_t;", "DROP TABLE s.old_t2;"])
                     for mode in ("sql", "mssql", "bigquery", "oracle"):
-                        check_case(ctx, {"gen": "key_orders", "ddl": ddl, "ctor": {}, "mode": mode, "group_by_type": bool(k % 3 == 0), "json_dump": True})
+                        case = {"gen": "key_orders", "ddl": ddl, "ctor": {}, "mode": mode, "group_by_type": bool(k % 3 == 0), "json_dump": True}
+                        if extra and extra[0].startswith("ALTER TABLE t DROP COLUMN c"):
+                            case["dropped_key_column"] = cl["cols"][-1]
+                        check_case(ctx, case)
                     ctx.obs["enumerated_key_order_patterns"] += 1
     corp = [c for c in load_corpus() if c["ok"]]
     n = ctx.budget(96, len(corp) + ctx.nshards)
